@@ -288,24 +288,24 @@ pub fn property() -> Property {
     const REQ: &[(&str, u32)] = &[("dense-asymmetric", 100)];
     macro_rules! dim {
         ($m:ident, $tag:expr) => {
-            s.push(sc!(concat!("layout-", $tag, "-Q"), "Q", $m::layout::<Q>, 3000, 200_000, 40, REQ, RULE));
-            s.push(sc!(concat!("layout-", $tag, "-Fp"), "Fp", $m::layout::<Fp>, 3000, 200_000, 40, &[], RULE));
-            s.push(sc!(concat!("mul_vec-", $tag, "-Q"), "Q", $m::mul_vec::<Q>, 3000, 200_000, 60, REQ, RULE));
-            s.push(sc!(concat!("mul_vec-", $tag, "-Fp"), "Fp", $m::mul_vec::<Fp>, 3000, 200_000, 60, &[], RULE));
-            s.push(sc!(concat!("mul_mat-", $tag, "-Q"), "Q", $m::mul_mat::<Q>, 3000, 200_000, 100, REQ, RULE));
-            s.push(sc!(concat!("mul_mat-", $tag, "-Fp"), "Fp", $m::mul_mat::<Fp>, 3000, 200_000, 100, &[], RULE));
-            s.push(sc!(concat!("ring-", $tag, "-Q"), "Q", $m::ring::<Q>, 2000, 100_000, 160, &[], RULE));
-            s.push(sc!(concat!("ring-", $tag, "-Fp"), "Fp", $m::ring::<Fp>, 2000, 100_000, 160, &[], RULE));
-            s.push(sc!(concat!("diag_ctors-", $tag, "-Q"), "Q", $m::diag_ctors::<Q>, 1000, 50_000, 16, &[], "diagonal entries non-zero and pairwise distinct"));
+            s.push(sc!(concat!("layout-", $tag, "-Q"), "Q", $m::layout::<Q>, 3000, 200_000, 64, REQ, RULE));
+            s.push(sc!(concat!("layout-", $tag, "-Fp"), "Fp", $m::layout::<Fp>, 3000, 200_000, 64, &[], RULE));
+            s.push(sc!(concat!("mul_vec-", $tag, "-Q"), "Q", $m::mul_vec::<Q>, 3000, 200_000, 80, REQ, RULE));
+            s.push(sc!(concat!("mul_vec-", $tag, "-Fp"), "Fp", $m::mul_vec::<Fp>, 3000, 200_000, 80, &[], RULE));
+            s.push(sc!(concat!("mul_mat-", $tag, "-Q"), "Q", $m::mul_mat::<Q>, 3000, 200_000, 128, REQ, RULE));
+            s.push(sc!(concat!("mul_mat-", $tag, "-Fp"), "Fp", $m::mul_mat::<Fp>, 3000, 200_000, 128, &[], RULE));
+            s.push(sc!(concat!("ring-", $tag, "-Q"), "Q", $m::ring::<Q>, 2000, 100_000, 224, &[], RULE));
+            s.push(sc!(concat!("ring-", $tag, "-Fp"), "Fp", $m::ring::<Fp>, 2000, 100_000, 224, &[], RULE));
+            s.push(sc!(concat!("diag_ctors-", $tag, "-Q"), "Q", $m::diag_ctors::<Q>, 1000, 50_000, 32, &[], "diagonal entries non-zero and pairwise distinct"));
         };
     }
     dim!(d2, "2");
     dim!(d3, "3");
     dim!(d4, "4");
-    s.push(sc!("embeddings-Q", "Q", embeddings::<Q>, 2000, 100_000, 40, REQ, RULE));
-    s.push(sc!("embeddings-Fp", "Fp", embeddings::<Fp>, 2000, 100_000, 40, &[], RULE));
-    s.push(sc!("affine_ctors-Q", "Q", affine_ctors::<Q>, 2000, 100_000, 160, &[("generic", 100)], RULE_G));
-    s.push(sc!("affine_ctors-Fp", "Fp", affine_ctors::<Fp>, 2000, 100_000, 160, &[], RULE_G));
+    s.push(sc!("embeddings-Q", "Q", embeddings::<Q>, 2000, 100_000, 64, REQ, RULE));
+    s.push(sc!("embeddings-Fp", "Fp", embeddings::<Fp>, 2000, 100_000, 64, &[], RULE));
+    s.push(sc!("affine_ctors-Q", "Q", affine_ctors::<Q>, 2000, 100_000, 288, &[("generic", 100)], RULE_G));
+    s.push(sc!("affine_ctors-Fp", "Fp", affine_ctors::<Fp>, 2000, 100_000, 288, &[], RULE_G));
     Property {
         id: "C01",
         title: "Matrix products follow the documented column-major, column-vector convention",
